@@ -8,3 +8,10 @@ mod simple_avx;
 
 #[cfg(target_arch = "aarch64")]
 mod simple_neon;
+
+/// Re-exports the private SIMD kernels for the verification hooks.
+#[cfg(all(arroy_verif, target_arch = "x86_64"))]
+pub(crate) mod verif_export {
+    pub(crate) use super::simple_avx::{dot_similarity_avx, euclid_similarity_avx};
+    pub(crate) use super::simple_sse::{dot_similarity_sse, euclid_similarity_sse};
+}
